@@ -240,3 +240,58 @@ func TestTapeRandomWalk(t *testing.T) {
 		}
 	}
 }
+
+func TestRWMutexQueuedReadersBeforeNextWriter(t *testing.T) {
+	// writer A holds the lock; reader R and writer B queue behind it; when A unlocks R must be
+	// admitted before B (as with sync.RWMutex), so R observes x == 1, never B's 2.
+	sawTwo, sawOne := 0, 0
+	prog := func() {
+		var m RWMutex
+		x := 0
+		seen := -1
+		var wg WaitGroup
+		wg.Add(3)
+		aHolds, rQueued := false, false
+		Go(func() { // A
+			m.Lock()
+			aHolds = true
+			x = 1
+			// keep the lock until R is queued behind us
+			block("wait", "R queued", func() bool { return rQueued && len(m.waiting) > 0 })
+			Yield("hold")
+			m.Unlock()
+			wg.Done()
+		})
+		Go(func() { // R
+			block("wait", "A holds", func() bool { return aHolds })
+			rQueued = true
+			m.RLock()
+			seen = x
+			m.RUnlock()
+			wg.Done()
+		})
+		Go(func() { // B
+			block("wait", "A holds", func() bool { return aHolds })
+			m.Lock()
+			x = 2
+			m.Unlock()
+			wg.Done()
+		})
+		wg.Wait()
+		if seen == 2 {
+			sawTwo++
+		}
+		if seen == 1 {
+			sawOne++
+		}
+	}
+	allSingle(t, prog, func(o Outcome, at, c int) {
+		if o.Deadlock || o.Panic != "" || o.TimedOut || o.StepLimit {
+			t.Fatalf("unexpected outcome %+v at %d/%d", o, at, c)
+		}
+	})
+	if sawOne == 0 {
+		t.Fatal("reader never ran between the two writers")
+	}
+	t.Logf("reader saw 1 in %d schedules, 2 in %d (possible only if it queued after B had announced)", sawOne, sawTwo)
+}
